@@ -12,7 +12,7 @@ LEVEL_TEXT = ("Exhaustive over a finite matrix: TLC enumerates DebugGate.tla (co
               "per statement is compiled against the current headers once per DEBUG value and linked with the current msgs.c/debug.c "
               "built the same way; every cell runs in a forked child with fd 2 captured, along a walk that also takes every "
               "set-level / set-silent transition of the specification.")
-LEVEL_NOTE = ("The matrix is finite and fully enumerated; the claim is about these 24 statements (not DPRINTF7-9, ASSERT_NOTREACHED, "
+LEVEL_NOTE = ("Message lengths are swept (7..20481 bytes) in the all-live configuration of every build only. The matrix is finite and fully enumerated; the claim is about these 24 statements (not DPRINTF7-9, ASSERT_NOTREACHED, "
               "ABORT, MOO). Where the statement is silent (are the arguments of a live but silenced D_* statement evaluated?) both "
               "outcomes are accepted. Trusted: TLC, harness/dbg_probe.c, clang.")
 TECHNIQUE = "TLA+ spec + TLC enumeration of the configuration matrix + execution of every cell on probe builds"
@@ -82,50 +82,114 @@ def make_walk(edges_by_state, macros, rnd, revisit=2):
     return script
 
 
+MSG_STATEMENTS = ["D_OPTIONS", "D_OBJ", "D_CONF", "D_MEM", "D_STRINGS", "D_PARSE", "DPRINTF1", "DPRINTF2", "DPRINTF3", "DPRINTF4",
+                  "DPRINTF5", "DPRINTF6", "print_warning", "print_error", "dprintf", "fatal_error"]
+
+
+def message_sizes():
+    """Size sweep of the message argument: n-1, n, n+1 around the powers of two, the bytes just below BUFSIZ (a prefix of up to
+    48 bytes in front of the message crosses 8192 somewhere in there), and sizes beyond every buffer of the library."""
+    s = set()
+    for k in range(3, 14):
+        s |= {(1 << k) - 1, 1 << k, (1 << k) + 1}
+    s |= {8192 - k for k in range(0, 49)}
+    s |= {8000, 8300, 16383, 16384, 16385, 16500, 20479, 20480, 20481}
+    return sorted(s)
+
+
+def run_probe(ctx, exe, d, script, tag):
+    path = os.path.join(ctx.rundir, "dbg-%d-%s.txt" % (d, tag))
+    with open(path, "w") as f:
+        for c, a in script:
+            f.write("%s\n" % cmd_text(c, a))
+    from vlib.replay import ASAN_OPTS
+    env = dict(os.environ, ASAN_OPTIONS=ASAN_OPTS, LC_ALL="C")
+    try:
+        r = subprocess.run([exe, path], capture_output=True, env=env, timeout=900, cwd=ctx.rundir)
+    except subprocess.TimeoutExpired:
+        raise Broken("dbg_probe DEBUG=%d timed out" % d)
+    out = r.stdout.decode("latin-1").splitlines()
+    if r.returncode != 0 or not out or out[-1] != "DONE" or out[0] != "BUILD DEBUG=%d" % d:
+        raise Broken("dbg_probe DEBUG=%d failed rc=%s first=%r last=%r stderr=%s" % (d, r.returncode, out[:1], out[-1:], r.stderr.decode("latin-1")[-500:]))
+    lines = out[1:-1]
+    if len(lines) != len(script):
+        raise Broken("dbg_probe DEBUG=%d: %d commands, %d answers" % (d, len(script), len(lines)))
+    return lines
+
+
 def run(ctx):
     cfg = "DebugGate_quick.cfg" if ctx.tier == "quick" else "DebugGate_thorough.cfg"
     g, res = objcheck.tlc_graph(ctx, "MC_DebugGate.tla", cfg, workers=2)
-    allowed = {}          # (d, r, silent, statement) -> set of (out, eval, ctl)
+    allowed = {}          # (d, r, silent, statement, history, context) -> set of (out, eval, ctl, else-arm executed)
     setedges = {}         # d -> {(r, silent): set((op, arg, (r', silent')))}
     for _, _, e in g.edges:
         p, q = e["pre"], e["post"]
         if e["op"] == "execute":
             o = e["ret"]
-            allowed.setdefault((p["d"], p["r"], p["silent"], e["args"][0], e["args"][1]), set()).add((o["out"], o["eval"], o["ctl"]))
+            allowed.setdefault((p["d"], p["r"], p["silent"]) + tuple(e["args"]), set()).add((o["out"], o["eval"], o["ctl"], o["els"]))
         else:
             a = e["args"][0]
             setedges.setdefault(p["d"], {}).setdefault((p["r"], p["silent"]), set()).add((e["op"], int(a), (q["r"], q["silent"])))
             if e["op"] == "set_silent" and e["ret"] != a:
                 raise Broken("spec: set_silent returns the new value")
-    macros = sorted({(k[3], k[4]) for k in allowed})          # (statement, stream history)
+    macros = sorted({k[3:] for k in allowed})          # (statement, stream history, statement context)
     ds = sorted(setedges)
-    if len(macros) != 2 * 28 or len(ds) != 6:
-        raise Broken("matrix incomplete: %d statements, %d compile-time levels" % (len(macros), len(ds)))
+    if len({m for m, _, _ in macros}) != 28 or len({c for _, _, c in macros}) != 5 or len(ds) != 6:
+        raise Broken("matrix incomplete: %d statement/history/context triples, %d compile-time levels" % (len(macros), len(ds)))
     rnd = random.Random(ctx.seed)
-    executed = 0
+    st = {"executed": 0, "sweep": 0}
     distinct = set()
     nontrivial = set()
     set_taken = 0
+    sizes = message_sizes()
+
+    def judge(d, cur_r, cur_s, a, line, size):
+        m, hist, cx = a
+        w = line.split()
+        f = dict(x.split("=", 1) for x in w[4:])
+        if (w[0] == "Y") != (hist == "after_failed_write") or w[1] != m or w[2] != cx or int(w[3]) != size:
+            raise Broken("dbg_probe answered %r to %r" % (line, (a, size)))
+        if w[0] == "Y" and f.get("ferr") != "1":
+            raise Broken("the failed write on stderr could not be provoked (DEBUG=%d %s)" % (d, line))
+        obs = (f["out"], int(f["eval"]), f["ctl"], f["else"] == "1")
+        cell = (d, cur_r, cur_s, m, hist, cx)
+        st["executed"] += 1
+        if size == 0:
+            distinct.add(cell)
+            if obs != ("none", 0, "falls", False):
+                nontrivial.add(cell)
+        else:
+            st["sweep"] += 1
+            nontrivial.add(cell + (size,))
+        ok = obs in allowed[cell]
+        why = ""
+        want = 2 if (cx == "loop2" and f["ctl"] == "falls") else 1
+        if ok and f["out"] != "none" and f["text"] != "1":
+            ok, why = False, " (stream output without the statement's own complete message)"
+        if ok and f["out"] != "none" and int(f["count"]) != want:
+            ok, why = False, " (the message appears %s times, expected %d)" % (f["count"], want)
+        if ok and f["ctl"] == "returns" and f["val"] != "7":
+            ok, why = False, " (returned %s, not the stated failure value 7)" % f["val"]
+        if ok and f["ctl"] == "exits" and f["status"] in ("0", "-1"):
+            ok, why = False, " (process ended with status %s, not through the fatal-error path)" % f["status"]
+        if not ok:
+            exp = sorted(allowed[cell])
+            tags = ("" if hist == "clean" else "/after-failed-write") + ("" if cx == "alone" else "/" + cx) + ("" if size == 0 else "/long-message")
+            key = "%s%s [%s] out=%s%s eval=%s ctl=%s else=%s" % (m, tags, cell_class(d, cur_r, cur_s, m), f["out"],
+                                                                 "/no-text" if (f["out"] != "none" and f["text"] != "1") else
+                                                                 ("/count" if (f["out"] != "none" and int(f["count"]) != want) else ""),
+                                                                 f["eval"], re.sub(r"\d+", "N", f["ctl"]), f["else"])
+            ctx.report(key, "DEBUG=%d runtime level %d silent=%s statement %s (stream history %s, context %s, message argument of %d bytes): observed %s%s; "
+                            "allowed by the rule (out, eval, ctl, else arm executed): %s" % (d, cur_r, cur_s, m, hist, cx, size, line[:300], why, exp),
+                       {"debug": d, "level": cur_r, "silent": cur_s, "statement": m, "history": hist, "context": cx, "size": size,
+                        "observed": line[:400], "allowed": [list(x) for x in exp],
+                        "script": "L %d\nS %d\n%s\n" % (cur_r, int(cur_s), cmd_text("X", a, size))})
+
     for d in ds:
         libdir, cflags = build.build_lib(ctx.repo, debug_level=d)
         exe = build.build_harness("dbg_probe-d%d" % d, ["dbg_probe.c"], libdir, cflags)
-        script = make_walk(setedges[d], macros, rnd, revisit=2 if ctx.tier == "quick" else len(macros))
-        path = os.path.join(ctx.rundir, "dbg-%d.txt" % d)
-        with open(path, "w") as f:
-            for c, a in script:
-                f.write("%s\n" % cmd_text(c, a))
-        from vlib.replay import ASAN_OPTS
-        env = dict(os.environ, ASAN_OPTIONS=ASAN_OPTS, LC_ALL="C")
-        try:
-            r = subprocess.run([exe, path], capture_output=True, env=env, timeout=300, cwd=ctx.rundir)
-        except subprocess.TimeoutExpired:
-            raise Broken("dbg_probe DEBUG=%d timed out" % d)
-        out = r.stdout.decode("latin-1").splitlines()
-        if r.returncode != 0 or not out or out[-1] != "DONE" or out[0] != "BUILD DEBUG=%d" % d:
-            raise Broken("dbg_probe DEBUG=%d failed rc=%s first=%r last=%r stderr=%s" % (d, r.returncode, out[:1], out[-1:], r.stderr.decode("latin-1")[-500:]))
-        lines = out[1:-1]
-        if len(lines) != len(script):
-            raise Broken("dbg_probe DEBUG=%d: %d commands, %d answers" % (d, len(script), len(lines)))
+        script = make_walk(setedges[d], macros, rnd, revisit=2 if ctx.tier == "quick" else 24)
+        lines = run_probe(ctx, exe, d, script, "walk")
         cur_r, cur_s = 0, False
         for (c, a), line in zip(script, lines):
             w = line.split()
@@ -141,62 +205,51 @@ def run(ctx):
                 if w != ["S", str(int(a)), str(int(a))]:
                     ctx.report("set_silent return value", "DEBUG=%d: %r" % (d, line), {"debug": d, "script": script_text(script)})
                 continue
-            f = dict(x.split("=", 1) for x in w[2:])
-            obs = (f["out"], int(f["eval"]), f["ctl"])
-            a, hist = a
-            if (w[0] == "Y") != (hist == "after_failed_write") or w[1] != a:
-                raise Broken("dbg_probe answered %r to %r" % (line, (a, hist)))
-            if w[0] == "Y" and f.get("ferr") != "1":
-                raise Broken("the failed write on stderr could not be provoked (DEBUG=%d %s)" % (d, line))
-            cell = (d, cur_r, cur_s, a, hist)
-            executed += 1
-            distinct.add(cell)
-            if obs != ("none", 0, "falls"):
-                nontrivial.add(cell)
-            ok = obs in allowed[cell]
-            why = ""
-            if ok and f["out"] != "none" and f["text"] != "1":
-                ok, why = False, " (stream output without the statement's own message)"
-            if ok and f["ctl"] == "returns" and f["val"] != "7":
-                ok, why = False, " (returned %s, not the stated failure value 7)" % f["val"]
-            if ok and f["ctl"] == "exits" and f["status"] in ("0", "-1"):
-                ok, why = False, " (process ended with status %s, not through the fatal-error path)" % f["status"]
-            if not ok:
-                exp = sorted(allowed[cell])
-                key = "%s%s [%s] out=%s%s eval=%s ctl=%s" % (a, "" if hist == "clean" else "/after-failed-write", cell_class(d, cur_r, cur_s, a), f["out"],
-                                                           "/no-text" if (f["out"] != "none" and f["text"] != "1") else "", f["eval"], re.sub(r"\d+", "N", f["ctl"]))
-                ctx.report(key, "DEBUG=%d runtime level %d silent=%s statement %s (stream history: %s): observed %s%s; allowed by the rule: %s" % (
-                    d, cur_r, cur_s, a, hist, line, why, exp),
-                    {"debug": d, "level": cur_r, "silent": cur_s, "statement": a, "history": hist, "observed": line, "allowed": [list(x) for x in exp],
-                     "script": "L %d\nS %d\n%s %s\n" % (cur_r, int(cur_s), "X" if hist == "clean" else "Y", a)})
+            judge(d, cur_r, cur_s, a, line, 0)
+        # size sweep (direction B family): every message-bearing statement, every size, in the configuration where everything that is
+        # compiled in is live (runtime level 6, not silenced); the rule does not know the message length, so the outcome is the cell's
+        sweep = [("L", 6), ("S", 0)] + [("Z", ((m, "clean", "alone"), n)) for m in MSG_STATEMENTS for n in sizes]
+        lines = run_probe(ctx, exe, d, sweep, "sizes")
+        for (c, a), line in zip(sweep, lines):
+            if c == "Z":
+                judge(d, 6, False, a[0], line, a[1])
         if d == ds[-1]:
             ctx.sample({"debug": d, "first_commands": [cmd_text(*x) for x in script[:3]], "first_answers": lines[:3]})
+            ctx.sample({"debug": d, "size_sweep": [x[:160] for x in lines[-2:]]})
     missing = set(allowed) - distinct
     if missing:
         raise Broken("%d cells of the matrix were not executed, e.g. %s" % (len(missing), sorted(missing)[:3]))
     nset = sum(len(v) for dd in setedges.values() for v in dd.values())
     if set_taken < nset:
         raise Broken("walks took %d set transitions, specification has %d" % (set_taken, nset))
-    ctx.add("evaluations", executed)
+    ctx.add("evaluations", st["executed"])
     ctx.cov["distinct_nontrivial"] = len(nontrivial)
     ctx.cov["distinct_cells"] = len(distinct)
     ctx.cov["cells_in_matrix"] = len(allowed)
     ctx.cov["cells_with_two_allowed_outcomes"] = sum(1 for v in allowed.values() if len(v) > 1)
     ctx.cov["set_transitions_taken"] = set_taken
+    ctx.cov["size_sweep"] = {"sizes": len(sizes), "min": sizes[0], "max": sizes[-1], "statements": len(MSG_STATEMENTS), "executions": st["sweep"]}
     ctx.cov["exhaustive"] = True
-    ctx.cov["rule"] = ("every cell (DEBUG 0..5, runtime level 0..6, silent, statement) of the matrix TLC enumerates is executed at least once in a "
-                       "forked child of a probe built with that DEBUG, observed (stream class, evaluations of the argument, control) and "
-                       "compared with the outcomes the specification allows (the diagnostic of a failed ASSERT/REQUIRE must contain the expression text verbatim); a cell is counted non-trivial when something observable happens "
-                       "(output, an evaluation, a return or an exit); distinct = distinct cells")
-    ctx.sample({"cell": "DEBUG=5 R=5 loud D_MEM after a failed write on the stream", "allowed": [list(x) for x in sorted(allowed[(5, 5, False, "D_MEM", "after_failed_write")])]})
-    ctx.sample({"cell": "DEBUG=4 R=1 silent ASSERT_RVAL_fail", "allowed": [list(x) for x in sorted(allowed[(4, 1, True, "ASSERT_RVAL_fail", "clean")])]})
+    ctx.cov["rule"] = ("every cell (DEBUG 0..5, runtime level 0..6, silent, statement, stream history, statement context) of the matrix TLC "
+                       "enumerates is executed at least once in a forked child of a probe built with that DEBUG, observed (stream class, "
+                       "evaluations of the argument, control, else arm of the enclosing if) and compared with the outcomes the specification "
+                       "allows; stream output must contain the statement's complete message byte for byte (the expression text verbatim for a "
+                       "failed ASSERT/REQUIRE) the right number of times; plus a sweep of the message length (7..20481 bytes) over every "
+                       "message-bearing statement in the all-live configuration of every build. A cell is non-trivial when something "
+                       "observable happens (output, an evaluation, a return, an exit, an else arm); distinct = distinct cells (+ distinct "
+                       "(cell, size) pairs of the sweep)")
+    ctx.sample({"cell": "DEBUG=5 R=5 loud D_MEM after a failed write on the stream", "allowed": [list(x) for x in sorted(allowed[(5, 5, False, "D_MEM", "after_failed_write", "alone")])]})
+    ctx.sample({"cell": "DEBUG=4 R=2 loud DPRINTF3 as the then-arm of if (0) ... else", "allowed": [list(x) for x in sorted(allowed[(4, 2, False, "DPRINTF3", "clean", "then_false")])]})
     ctx.assumptions += ["probe and library compiled with clang from the current tree with a shim config.h per DEBUG value",
                         "stream output is classified by its marker (FATAL: / Warning: / Error: / other = debug)"]
 
 
-def cmd_text(c, a):
+def cmd_text(c, a, size=0):
+    if c == "Z":
+        a, size = a
+        c = "X"
     if c == "X":
-        return "%s %s" % ("X" if a[1] == "clean" else "Y", a[0])
+        return "%s %s %s %d" % ("X" if a[1] == "clean" else "Y", a[0], a[2], size)
     return "%s %d" % (c, int(a))
 
 
